@@ -63,7 +63,10 @@ class Packet(Frame):
         self.error_text: str = kwargs.get("err_msg", "")
         self.raw_frame: str = kwargs.get("raw_frame", "")
 
-        self._lifespan: bool | td = pkt_lifespan(self) or False
+        try:
+            self._lifespan: bool | td = pkt_lifespan(self) or False
+        except AssertionError as err:  # e.g. an array from a non-controller
+            raise exc.PacketInvalid(f"Bad frame: {err}") from err
 
         self._validate(strict_checking=False)
 
